@@ -1,7 +1,8 @@
 SPEC = {
     "lean_modules": ["AM.Props.C16"],
     "theorems": [
-        "AM.Mt.utf8_roundtrip", "AM.Mt.classic_roundtrip",
+        "AM.Mt.utf8_roundtrip", "AM.Mt.classic_roundtrip", "AM.Mt.fallback_roundtrip",
+        "AM.Mt.utf8_roundtrip_list", "AM.Mt.classic_roundtrip_list",
         "AM.Mt.printPinned_eq_print", "AM.Mt.empty_name_counterexample",
         "AM.Mt.fallback_spec", "AM.Mt.fallback_spec_list",
         "AM.Mt.fallback_prefers_classic", "AM.Mt.fallback_prefers_classic_list",
